@@ -34,7 +34,11 @@ var docFields = map[string]defMap{
 		// eight more attributes: a selection for t2 can name more than eight fields
 		"c1": {Kind: "attr", K: "string"}, "c2": {Kind: "attr", K: "int", Null: true}, "c3": {Kind: "attr", K: "string"},
 		"c4": {Kind: "attr", K: "string"}, "c5": {Kind: "attr", K: "int"}, "c6": {Kind: "attr", K: "string", Null: true},
-		"c7": {Kind: "attr", K: "string"}, "c8": {Kind: "attr", K: "string"}},
+		"c7": {Kind: "attr", K: "string"}, "c8": {Kind: "attr", K: "string"},
+		// ... and nine more: a selection for t2 can name more than sixteen
+		"d1": {Kind: "attr", K: "string"}, "d2": {Kind: "attr", K: "int"}, "d3": {Kind: "attr", K: "string"},
+		"d4": {Kind: "attr", K: "string"}, "d5": {Kind: "attr", K: "int", Null: true}, "d6": {Kind: "attr", K: "string"},
+		"d7": {Kind: "attr", K: "string"}, "d8": {Kind: "attr", K: "string"}, "d9": {Kind: "attr", K: "string"}},
 }
 
 type dRes struct {
